@@ -26,7 +26,8 @@ def OpsOk (c : SpecBundle) : List SpecOp → Prop
 
 theorem reopen_wf (fs : FS) (c : SpecBundle) (h : SysWF c.b.cfg c.asts) : SysWF (reopen fs c.b) c.asts :=
   { valid := h.valid, cc := h.cc, us := h.us, dcp := h.dcp, mdc := h.mdc, mdcE := h.mdcE,
-    printed := fun a ha => h.printed a ha, wf := fun a ha => h.wf a ha }
+    printed := fun a ha => h.printed a ha, wf := fun a ha => h.wf a ha,
+    noRolling := fun a ha => h.noRolling a ha }
 
 theorem reopen_copies (fs : FS) (b : Bundle) (a : Name) (r : SysRecord) :
     specCopies (reopen fs b) a r = specCopies b.cfg a r := rfl
